@@ -458,6 +458,15 @@ pub fn mutate_tensor(rng: &mut Rng, fs: &mut Vec<Field>) -> String {
                 _ => (pick(rng), pick(rng)),
             };
             fs.retain(|f| !matches!(f.num, 13 | 14 | 9));
+            // An empty tensor with an empty range: legitimate, and the loader's buffer
+            // for it has no allocation (dangling, byte-aligned pointer).
+            let (off, len) = if rng.chance(1, 5) {
+                fs.retain(|f| f.num != 1);
+                fs.push(Field::varint(1, 0));
+                (if rng.bool() { "0".to_string() } else { off }, "0".to_string())
+            } else {
+                (off, len)
+            };
             let loc_name = match rng.below(8) {
                 0 => "../weights.data",
                 1 => "missing.data",
